@@ -383,7 +383,7 @@ def replay(rp):
 def plan(tier, seed):
     if tier == 'quick':
         return [{'ncases': 60, 'schedules': 12, 'maxops': 6} for _ in range(32)] + [{'race': True, 'ncases': 2, 'rounds': 4000} for _ in range(4)] + [{'rcmap': True, 'n': 1500} for _ in range(2)]
-    return [{'ncases': 1200, 'schedules': 25, 'maxops': 8} for _ in range(64)] + [{'race': True, 'ncases': 6, 'rounds': 40000} for _ in range(8)] + [{'rcmap': True, 'n': 20000} for _ in range(8)]
+    return [{'ncases': 1200, 'schedules': 25, 'maxops': 8} for _ in range(64)] + [{'race': True, 'ncases': 6, 'rounds': 40000} for _ in range(8)] + [{'rcmap': True, 'n': 6000} for _ in range(16)]
 
 
 def run(tier, seed):
